@@ -672,6 +672,9 @@ func Run(in Input) Obs {
 		return Obs{Err: err.Error(), Status: -1}
 	}
 	trace := filepath.Join(dir, "trace")
+	if err := os.Mkdir(filepath.Join(dir, "cwd"), 0o755); err != nil {
+		return Obs{Err: err.Error(), Status: -1}
+	}
 	files := map[string][]byte{"lib.sh": lib, "ctx.json": cj, "hook.sh": []byte(Script(in))}
 	for i, c := range configOf(in) {
 		if c.Form == formFile {
@@ -696,7 +699,9 @@ func Run(in Input) Obs {
 		}
 		ctx, cancel := context.WithTimeout(context.Background(), limit)
 		cmd := exec.CommandContext(ctx, "bash", append([]string{filepath.Join(dir, "hook.sh")}, in.Args...)...)
-		cmd.Dir = dir
+		// the hook runs in an EMPTY directory of its own: the framework's unquoted expansions undergo
+		// pathname expansion, and the model (C19_WModel) assumes that no pattern has a match
+		cmd.Dir = filepath.Join(dir, "cwd")
 		cmd.Env = []string{"PATH=" + os.Getenv("PATH"), "LC_ALL=C", "VERIF_LIB=" + filepath.Join(dir, "lib.sh"),
 			"VERIF_TRACE=" + trace, "VERIF_CFG=" + filepath.Join(dir, "config"), "BINDING_CONTEXT_PATH=" + filepath.Join(dir, "ctx.json")}
 		cmd.Stdout, cmd.Stderr = &so, &se
@@ -868,6 +873,9 @@ func Render(in Input, obs *Obs, crash string) core.Case {
 		}
 	}
 	c.Tags = append(c.Tags, bodyTags(in, o)...)
+	if !config {
+		c.Tags = append(c.Tags, nameTags(in)...)
+	}
 	switch {
 	case status == 0:
 		c.Tags = append(c.Tags, "exit:0")
@@ -1881,7 +1889,7 @@ var exoticBindings = []string{"a b", "x y z", "a*", "?", "[ab]", "$HOME", "a;b",
 var wordRe = regexp.MustCompile(`\S+`)
 
 func exoticInput(r *core.Rng) Input {
-	in := Input{Exotic: true}
+	in := Input{} // (judged since the model speaks about words: C19_WModel)
 	b := exoticBindings[r.Intn(len(exoticBindings))]
 	typed := []string{"schedule", "sync", "added", "modified", "deleted", "group", "validating", "mutating", "conversion"}
 	c := mkCtx(typed[r.Intn(len(typed))], b)
@@ -1979,6 +1987,9 @@ func Corpus() []core.In[Input] {
 	for _, in := range ins {
 		out = append(out, core.In[Input]{Input: in, Stream: "corpus"})
 	}
+	for _, in := range namesCorpus() {
+		out = append(out, core.In[Input]{Input: in, Stream: "names-corpus"})
+	}
 	// witness of the recorded finding F20 (reserved binding name): judged; excused by trigger F20
 	out = append(out, core.In[Input]{Input: Input{Ctxs: []Ctx{{Kind: "schedule", Binding: "onStartup"}},
 		Defined: handlers([]string{"__on_schedule::onStartup", "__on_startup"}, zero)}, Stream: "trigger-F20"})
@@ -1996,12 +2007,15 @@ func Gen(r *core.Rng, tier string) ([]core.In[Input], bool) {
 	for _, in := range configSystematic() {
 		ins = append(ins, core.In[Input]{Input: in, Stream: "config-systematic"})
 	}
-	nRandom, nExotic, pairs, nBody, nLarge, nConfig := 60, 24, false, 110, 10, 120
+	nRandom, nExotic, pairs, nBody, nLarge, nConfig, nNames := 60, 24, false, 110, 10, 120, 70
 	switch tier {
 	case "thorough":
-		nRandom, nExotic, pairs, nBody, nLarge, nConfig = 2500, 300, true, 6000, 150, 5000
+		nRandom, nExotic, pairs, nBody, nLarge, nConfig, nNames = 2500, 300, true, 6000, 150, 5000, 4000
 	case "search":
-		nRandom, nExotic, pairs, nBody, nLarge, nConfig = 600, 0, false, 1500, 60, 1200
+		nRandom, nExotic, pairs, nBody, nLarge, nConfig, nNames = 600, 0, false, 1500, 60, 1200, 1500
+	}
+	for _, in := range namesSystematic(tier == "thorough") {
+		ins = append(ins, core.In[Input]{Input: in, Stream: "names-systematic"})
 	}
 	if pairs {
 		for _, in := range exhaustivePairs() {
@@ -2043,6 +2057,10 @@ func Gen(r *core.Rng, tier string) ([]core.In[Input], bool) {
 	for i := 0; i < nConfig; i++ {
 		ins = append(ins, core.In[Input]{Input: configRandomInput(rc), Stream: "config-random"})
 	}
+	rn := r.Fork()
+	for i := 0; i < nNames; i++ {
+		ins = append(ins, core.In[Input]{Input: namesRandom(rn), Stream: "names-random"})
+	}
 	return ins, false
 }
 
@@ -2076,7 +2094,7 @@ func Extra() map[string]any {
 
 var Driver = core.Driver[Input, Obs]{
 	Spec: core.Spec{Property: "C19", Imports: []string{"C19_Model", "C19_Spec", "C19_Corr"}, Corr: "C19_Corr",
-		Triggers: []string{"F20", "XMODEL", "XSPEC"}, ShrinkKey: "ctxs",
+		Triggers: []string{"F20", "XMODEL", "XSPEC", "FRAG", "GLOB", "FRAGV", "GLOBV"}, ShrinkKey: "ctxs",
 		Rule: "one run of a generated bash hook (real shell_lib.sh + frameworks/shell, scripted handler functions, trace file) per case; streams: corpus, exhaustive-1, exhaustive-2 (thorough), strict-systematic and random-body (handlers with bodies of commands run under strict mode: a failing command / pipeline / unset variable / block in the middle followed by succeeding commands, tested positions, return/exit, no final return; the marks of the commands that started are compared), random (0-6 contexts, safe binding names, shuffled definitions, 8 exit codes, --config and other arguments), malformed (contexts the operator never produces; model only), trigger-F20 (typed binding named onStartup), exotic (triage only), config-systematic and config-random (--config with the TEXT of __config__ as an input: any bytes, written in several pieces and ways; the raw stdout of the run is compared byte for byte and judged by the clause printed-verbatim - the raw stdout is compared in every other stream too); non-trivial = dispatch over >=1 context with >=1 handler defined, or --config with __config__ defined; distinct = distinct input JSON"},
 	Gen: Gen, Run: Run, Render: Render, PerShard: 150, Workers: 12, CaseTimout: 150 * time.Second, Extra: Extra,
 }
